@@ -85,6 +85,23 @@ pub fn jobs(seed: u64, thorough: bool, bad_only: bool) -> Vec<Job> {
                 let (raw, panic) = run_chain::<B64, f64, _>(t, vec![0.3 * cell, 0.4], 0.8, sd + 40, &[(steps.0 + 6, 0)], Some(0.4));
                 out.push(Job { label: "cliffs-up/f64".into(), raw, panic, own: OwnN::Cliffs { cell, levels, omega2, kappa: 0.02 }, tol: 1e-11 });
             }
+            // a large additive constant of the log-density (f64): every energy the chain handles is ~ -2.5e8 / +3e9, every
+            // DIFFERENCE it acts on (slice, divergence bound, acceptance statistic) is O(1): the differences must be taken in f64
+            for (k, c) in [-2.5e8, 3e9].into_iter().enumerate() {
+                let prec = rand_prec(2, &mut s, 2.0);
+                let (raw, panic) = run_chain::<B64, f64, _>(GaussPC { prec: prec.clone(), c }, vec![0.4, -0.7], 0.8, sd + 50 + k as u64, &[(steps.0, steps.1)], None);
+                out.push(Job { label: format!("gaussPC{k}/f64"), raw, panic, own: OwnN::GaussPC { prec, c }, tol: 1e-11 });
+            }
+            // teleports: `position` assigned between run() calls (a warmed-up chain restarted elsewhere, three times)
+            {
+                let prec = rand_prec(3, &mut s, 3.0);
+                let tp = [None, Some(vec![1.5, -2.0, 0.7]), Some(vec![-0.4, 0.3, 2.2]), Some(vec![0.0, 0.0, 0.0])];
+                let (raw, panic) = run_chain_tp::<B64, f64, _>(GaussP { prec: prec.clone() }, vec![0.3, 0.2, -0.1], 0.8, sd + 60, &[(4, 4), (3, 0), (3, 2), (2, 0)], None, &tp);
+                out.push(Job { label: "teleport3/f64".into(), raw, panic, own: OwnN::GaussP { prec }, tol: 1e-11 });
+                let tp = [None, Some(vec![-1.0, 1.2]), Some(vec![0.6, 0.1])];
+                let (raw, panic) = run_chain_tp::<B32, f32, _>(Rosenbrock2D::<f32> { a: 1.0, b: 10.0 }, vec![0.2, 0.1], 0.8, sd + 61, &[(4, 3), (4, 0), (4, 0)], None, &tp);
+                out.push(Job { label: "teleport-rosen/f32".into(), raw, panic, own: OwnN::Rosen2 { a: 1.0, b: 10.0 }, tol: 5e-4 });
+            }
             // immediate U-turn: very narrow Gaussian, big forced step
             let narrow = vec![vec![400.0, 0.0], [0.0, 400.0].to_vec()];
             let (raw, panic) = run_chain::<B64, f64, _>(GaussP { prec: narrow.clone() }, vec![0.01, -0.02], 0.8, sd + 6, &[(6, 0)], Some(0.09));
